@@ -67,6 +67,11 @@ def oracle_wash(s: str) -> str:
     return "".join(out)
 
 
+def name_fits(fn: Any) -> bool:
+    """Linux NAME_MAX: a path component of more than 255 octets cannot be created (oracle for `open`)."""
+    return len((oracle_wash(str(fn)) + SUFFIX + ".xml").encode()) <= 255
+
+
 def snapshot(root: Path) -> dict[str, Any]:
     snap: dict[str, Any] = {}
     for dirpath, dirnames, filenames in os.walk(root, followlinks=False):
@@ -201,7 +206,7 @@ def stream_upload(res: Result, tier: str, driver_ok: bool) -> None:
                     {
                         "op": "save_ksr", "cfgContentType": CT, "maxSize": MAXS, "uploadDir": cps(str(updir)),
                         "contentType": p["ct"], "size": p["size"], "filename": None if fn is None else cps(str(fn)),
-                        "body": hexs(body), "suffix": cps(SUFFIX), "openOk": p["dir"] != "missing", "hashHex": hashlib.sha256(body).hexdigest(),
+                        "body": hexs(body), "suffix": cps(SUFFIX), "openOk": p["dir"] != "missing" and name_fits(fn), "hashHex": hashlib.sha256(body).hexdigest(),
                     }
                 )
     model = run_driver(lines, exe=DRIVER) if driver_ok else [None] * len(lines)
@@ -228,8 +233,12 @@ def stream_upload(res: Result, tier: str, driver_ok: bool) -> None:
             want = {"http": 400}
         elif p["size"] > MAXS:
             want = {"http": 413}
-        elif p["dir"] == "missing":
+        elif p["dir"] == "missing" or not name_fits(fn):
+            # the operating system refuses the open (no such directory / ENAMETOOLONG): an OSError leaves save_ksr
+            # (HTTP 500 in the real stack); the property asks that nothing is written anywhere
             want = {"error": "os"}
+            if p["dir"] != "missing":
+                res.bump("upload:name-longer-than-NAME_MAX -> unhandled OSError, nothing written")
         else:
             want = "stored"
         if c["changed"]:
@@ -277,7 +286,10 @@ def stream_upload(res: Result, tier: str, driver_ok: bool) -> None:
             elif "ok" in mr and "".join(map(chr, mr["ok"]["parent"])) != str(c["updir"]):
                 res.disagreement("save_ksr: model parent != upload directory", case, str(c["updir"]), "".join(map(chr, mr["ok"]["parent"])))
         if len(res.samples) < 2 and p["ftag"] in ("dotdot-slash", "lone-surrogate") and p["stag"] == "small" and p["ctag"] == "right" and p["dir"] == "ok":
-            res.sample({"case": case, "observed": obs, "model": None if m is None else m["result"]})
+            msample = None
+            if m is not None and "ok" in m["result"]:
+                msample = {k: ("".join(map(chr, v)) if isinstance(v, list) else v) for k, v in m["result"]["ok"].items()}
+            res.sample({"case": {k: v for k, v in case.items() if k != "filename_codepoints"}, "observed": obs, "model": msample})
 
     # pathlib joining on arbitrary strings (the model of `/` and `.parent` used by path_confined)
     from pathlib import PurePosixPath
@@ -658,6 +670,18 @@ def run(tier: str, driver_ok: bool) -> Result:
     )
     for name, fn in STREAMS:
         fn(res, tier, driver_ok)
+    res.notes.append(
+        "a client file name whose washed form exceeds NAME_MAX - 27 octets makes open() fail with ENAMETOOLONG: save_ksr raises an unhandled OSError "
+        "(HTTP 500) after reading the body; nothing is written (fail-safe; availability is not part of C20)"
+    )
+    res.notes.append(
+        "an invalid PREVIOUS SKR is not reported as ERROR: load_skr wraps its PolicyViolation in RuntimeError, which validate_ksr does not catch "
+        "(C20.previous_skr_failure_propagates; exercised in stream 'verdict' with response_policy num_bundles=8)"
+    )
+    res.notes.append(
+        "the whitelist comparison is on the text: the configuration accepts upper-case hex fingerprints ([0-9a-fA-F]+) but the computed digest is "
+        "lower-case, so an upper-case entry never admits its client (fail-closed; exercised as list 'upper-0')"
+    )
     return res
 
 
